@@ -18,8 +18,8 @@ PAIR_POOL = ["a", "b", "a; b", "b; a", "TrashNode", "c", "a; b; c", "q0", "q1"]
 def gen(rng, tier):
     plain = rng.chance(0.45)
     pool = None
-    if rng.chance(0.2):
-        pool = (PAIR_POOL, rng.pick(["str", "V"]))
+    if rng.chance(0.3):
+        pool = (rng.sample(PAIR_POOL[:7], 7), rng.pick(["str", "str", "V"]))
     a = G.gen_fa(rng, plain_symbols=plain, name_pool=pool, max_states=4, max_trans=7)
     b = G.gen_fa(rng, plain_symbols=plain, max_states=4, max_trans=7,
                  name_pool=((G.INT_STATES, "int") if a["valmode"] == "int" else (G.PLAIN_STATES, a["valmode"])))
@@ -60,7 +60,19 @@ def gen(rng, tier):
             pa = [(p, x) for p, x, q in c["trans"]]
             if len(set(pa)) != len(pa):
                 c["kind"] = "nfa"
-    return {"a": a, "b": b, "same_object": rng.chance(0.07), "plain": plain}
+    same = rng.chance(0.07) or (pool is not None and rng.chance(0.3))
+    if pool is not None and not same and rng.chance(0.5) and b["valmode"] != "int":
+        # the second operand draws its names from the same colliding pool
+        ren = dict(zip(b["states"], rng.sample(PAIR_POOL[:7], len(b["states"]))))
+        b["states"] = [ren[s_] for s_ in b["states"]]
+        b["trans"] = [[ren[p_], x_, ren[q_]] for p_, x_, q_ in b["trans"]]
+        b["starts"] = [ren[s_] for s_ in b["starts"]]
+        b["finals"] = [ren[s_] for s_ in b["finals"]]
+        if b["valmode"] == "V":
+            for s_ in b["states"]:
+                h.setdefault("S:" + s_, rng.getrandbits(30))
+            a["hash"] = b["hash"] = h
+    return {"a": a, "b": b, "same_object": same, "plain": plain}
 
 
 def hash_free_index(x):
